@@ -26,6 +26,7 @@ def shims():
             (cpv, "suffix_regexp", SymRegex(cpv.suffix_regexp)),
             (collections, "str", sym_str),
             (collections, "isinstance", sym_isinstance),
+            (restricts, "str", sym_str),
             (values, "str", sym_str),
             (values, "isinstance", sym_isinstance),
         ]
@@ -44,14 +45,18 @@ def rep_version(sh):
     return s
 
 
-def atom_text(spec):
-    """concrete atom string for a spec dict: blk, op, ver(shape)|None, slot, subslot, slotop, repo, use"""
+def atom_text(spec, version=None):
+    """concrete atom string for a spec dict: blk, op, ver(shape)|None, slot, subslot, slotop, repo, use;
+    version=(ver, rev) overrides the representative version text"""
     s = spec.get("blk", "")
     op = spec.get("op", "")
     s += "=" if op == "=*" else op
     s += spec.get("key", "cat/pkg")
     if op:
-        s += "-" + rep_version(spec["ver"])
+        if version is not None:
+            s += "-" + version[0] + ("-r" + version[1] if version[1] else "")
+        else:
+            s += "-" + rep_version(spec["ver"])
         if op == "=*":
             s += "*"
     if spec.get("slot") or spec.get("slotop"):
@@ -126,17 +131,28 @@ def _items(x):
     return list(core.items_of(x))
 
 
-def ref_glob(A, P):
-    """=...* : atom full version text A is a prefix of package full version text P on a component boundary"""
+def glob_prefix(A, P):
+    """plain string-prefix relation as a z3 Bool"""
     a, p = _items(A), _items(P)
     if len(a) > len(p):
         return z3.BoolVal(False)
-    pre = core._z3and(core.ceq(x, y) for x, y in zip(a, p))
+    return core._z3and(core.ceq(x, y) for x, y in zip(a, p))
+
+
+def ref_glob(A, P):
+    """=...* : atom full version text A is a prefix of package full version text P on a component
+    boundary (PMS 8.3.1; portage bug 560466): the next character is absent, a separator, or of a
+    different digit/non-digit class than the last written one."""
+    a, p = _items(A), _items(P)
+    if len(a) > len(p):
+        return z3.BoolVal(False)
+    pre = glob_prefix(A, P)
     if len(p) == len(a):
         return pre
     nxt, last = core.code(p[len(a)]), core.code(a[-1])
     dig = lambda c: z3.And(c >= 48, c <= 57)
-    return z3.And(pre, z3.Not(z3.And(dig(nxt), dig(last))))
+    sep = z3.Or(nxt == 46, nxt == 95, nxt == 45)
+    return z3.And(pre, z3.Or(sep, dig(nxt) != dig(last)))
 
 
 def ref_version_ok(op, AV, PV):
